@@ -172,6 +172,8 @@ Definition guard_tags (c : case) : list nat :=
   tag (negb (has_addl s) || has_ii s) 217 ++
   tag (negb (has_admid s) || has_cmt s || existsb (fun x : Z * Z * bool => snd x) (mi_dosing (c_mi c))) 218 ++
   tag (forallb (fun v => negb (v =? 4)) (evid_walk d)) 219 ++
-  tag (id_named_ID s) 220 ++ tag (negb (Nat.eqb (c_ncov c) 0)) 221.
+  tag (id_named_ID s) 220 ++ tag (negb (Nat.eqb (c_ncov c) 0)) 221 ++
+  (* expansion with the individuals not in ascending id order (C14-EXPAND-ID-ORDER) *)
+  tag (negb (expansion_applies d) || g_ids_ascending rows) 222.
 
 Definition verdict (c : case) : list nat := corr c ++ oracle c ++ guard_tags c.
